@@ -319,6 +319,11 @@ fn apply_fault(links: &mut Vec<Link>, f: u16, k: usize, aux: usize) -> (bool, bo
                 return (false, true, "");
             }
             let e = l.cat_power_limits[1].offset_end;
+            // stretching the first section to the end of the second overlaps it only if the
+            // second has an extent
+            if e <= l.cat_power_limits[1].offset_start {
+                return (false, true, "");
+            }
             l.cat_power_limits[0].offset_end = e;
             (true, true, "catenary-sections-overlap")
         }
